@@ -72,6 +72,24 @@ Proof.
   vm_compute in H2. discriminate.
 Qed.
 
+(* ------------------------------------------------------------------------------------------ two-digit years over 1999/2000 *)
+Definition witness_1999 : list string :=
+  ["     2.11           OBSERVATION DATA    G                   RINEX VERSION / TYPE";
+   "TEST                                                        MARKER NAME";
+   "     1    C1                                                # / TYPES OF OBSERV";
+   "  1999    12    31    23    59   30.0000000     GPS         TIME OF FIRST OBS";
+   "                                                            END OF HEADER";
+   " 99 12 31 23 59 30.0000000  0  1G01";
+   "  20000000.000";
+   " 00  1  1  0  0  0.0000000  0  1G01";
+   "  20000001.000"].
+Definition times_of (r : option result) : list string := match r with Some x => map r_time (o_rows x) | None => [] end.
+
+Lemma century_spec : times_of (model_v2 spec_q None witness_1999) = ["1999-12-31T23:59:30.0000000"; "2000-01-01T00:00:00.0000000"].
+Proof. vm_compute. reflexivity. Qed.
+Lemma century_refuted_l : times_of (model_v2 cent_q None witness_1999) = ["1999-12-31T23:59:30.0000000"; "1900-01-01T00:00:00.0000000"].
+Proof. vm_compute. reflexivity. Qed.
+
 (* ------------------------------------------------------------------------------------------ one observation cell *)
 Lemma isspace_all_space s : isspace s = true -> all_space s = true.
 Proof. destruct s; simpl; [discriminate|auto]. Qed.
